@@ -10,6 +10,8 @@ included); monitor replacement prepends the old contents and invalidates the
 decorated objective.  Round 3: the log protocol is also simulated under reconfiguration
 (SetGenerationMonitor in every reachable bookkeeping state keeps `generations`);
 Step finalizes a run it ended (shared with C05.j).
+Round 4: no solver class keeps per-call settings (callback, disp) in a class-
+level container that is updated in place.
 NOT decided: call counts per iteration, equality of monitor
 contents with the real calls under non-default maps, monotonicity under
 non-idempotent constraints.
